@@ -60,6 +60,8 @@ def declare(reg, eng):
             st.assume(tok_sum(res, z3.Length(res), text) == DS(kind, text, d))     # (A1) enumeration = disk sum
             k = fresh_int("k")                                                      # (E1) *.token entries are regular files
             st.assume(qforall([k], z3.Implies(z3.And(0 <= k, k < z3.Length(res)), z3.Select(kind, Val.p(res[k])) == 1), patterns=[res[k]]))
+            e.seq_facts.setdefault(res.decl().name(), []).append(
+                lambda j: z3.Implies(z3.And(0 <= j, j < z3.Length(res)), z3.Select(kind, Val.p(res[j])) == 1))
     eng.glob_hooks.append(glob_hook)
 
     def fs_write_hook(e, st, p, old_kind, old_text):
